@@ -16,6 +16,7 @@ func init() {
 		e.RFragOrder()
 		e.RNewlineScan()
 		e.RBlankLine()
+		e.RDecs(false)
 		e.RPackageCommentGap()
 		e.RGuard("fragger", "decorate", "restore")
 		e.RCommentLines()
